@@ -372,7 +372,7 @@ var c05bTextNumRefRe = regexp.MustCompile(`&#0*(60|38);|&#x0*(3[cC]|26);`)
 
 // clause → triggers of known findings that excuse it (ids from known_findings.json)
 var c05bExcuse = map[string][]string{
-	"attr-value": {"foreignAttr"}, "wf": {"textNumRef", "foreignAttr", "emptyFO", "styleAmp"}, "text": {"textNumRef", "foreignAttr"}, "ns": {"svgPrefix", "foPrefix"}, "pi": {"pi"},
+	"attr-value": {"foreignAttr"}, "wf": {"textNumRef", "foreignAttr", "emptyFO", "styleAmp", "cdEnd"}, "text": {"textNumRef", "foreignAttr"}, "ns": {"svgPrefix", "foPrefix"}, "pi": {"pi"},
 	"doctype": {"doctypeSpace"}, "attr-text": {"textAttrDim"}, "lean-values": {"textAttrDim"}, "attr-lost-type": {"styleType"}, "tree": {"foreignAttr"}, "attr-lost": {"foreignAttr"}, "attr-extra": {"foreignAttr"},
 }
 
@@ -393,6 +393,9 @@ func c05bJudge(c *Ctx, st *h.Stage, cs *c05bCase, leanTrigs map[string]bool, lea
 	for _, t := range cs.toks {
 		if t.tt == pxml.TextToken && c05bTextNumRefRe.Match(t.data) {
 			trig["textNumRef"] = true
+		}
+		if (t.tt == pxml.TextToken && bytes.Contains(t.data, []byte("]]"))) || (t.tt == pxml.CDATAToken && bytes.HasPrefix(t.text, []byte(">"))) {
+			trig["cdEnd"] = true
 		}
 	}
 	trig["textAttrDim"] = cl == "attr-text"
@@ -502,7 +505,13 @@ func init() {
 
 		st := c.R.StartStage("fixed", "hand-written SVG documents (svg_test.go shapes, every branch of the loop) x configurations; model on the real lexer's tokens vs svg.Minify bytes; non-trivial = output differs from input")
 		var cases []*c05bCase
-		for _, f := range c05bFixed {
+		docs := append([]string{}, c05bFixed...)
+		for _, k := range h.Known("C05B") { // inputs of findings fixed in /repo: regression corpus, must pass
+			if k.Status == "fixed" {
+				docs = append(docs, k.ReplayStr("doc"))
+			}
+		}
+		for _, f := range docs {
 			for _, cfg := range c05bCfgs {
 				if cs := c05bPrepare(c, st, []byte(f), cfg); cs != nil {
 					cases = append(cases, cs)
